@@ -12,6 +12,9 @@ r = sys.argv[1]
 ids = sys.argv[2:]
 props = {json.loads(l)['id']: json.loads(l) for l in open('/verif/properties.jsonl')}
 T = open('/verif/dev/prompt_template.txt').read()
+HINTS = ['Style hint for this one: make the bug depend on something the current code never looks at (an option it ignores at that point, a name, an address space, the identity or order of a type or handle, an attribute of ANOTHER item in the module).',
+         'Style hint for this one: put the bug in code shared by several outputs or several callers so that only ONE of the consumers gets a wrong result.',
+         'Style hint for this one: aim for a boundary - exactly N items, the first / last element, index N-1 vs N, zero or u32::MAX, an empty collection, two equal keys.']
 for pid in ids:
     p = props[pid]
     used = []
@@ -25,6 +28,6 @@ for pid in ids:
     subprocess.run(['git', '-C', '/repo', 'worktree', 'add', '-q', '--detach', wt, 'HEAD'], check=True)
     txt = (T.replace('{WT}', wt).replace('{TGT}', f'/tmp/mut/tgt{r}-{pid}').replace('{OUT}', out).replace('{ID}', pid)
            .replace('{TITLE}', p['title']).replace('{STATEMENT}', p['statement']).replace('{QUANT}', p['quantifier']['text'])
-           .replace('{WHY}', p['why_tests_cant']).replace('{USED}', '\n'.join(used)))
+           .replace('{WHY}', p['why_tests_cant']).replace('{USED}', '\n'.join(used)).replace('{HINT}', HINTS[(int(pid[1:]) + int(r)) % 3]))
     open(out + '/prompt.txt', 'w').write(txt)
     print(out + '/prompt.txt')
